@@ -159,9 +159,43 @@ package hap
 //@   requires con != nil && con.context != nil
 //@   pure
 //@   ensures e == curEnc(con)
+// assumed: curDec is defined as what getDecrypter returns (a read of the context map; the session may switch to its
+// pending cryptographer, which writes session objects only)
+//@ ghost curDec(ref) iface
 //@ func (con *Connection) getDecrypter() (d)
+//@   trusted
 //@   requires con != nil && con.context != nil
-//@   modifies heap, verified
+//@   modifies verified, alltype("github.com/brutella/hc/hap.session")
+//@   ensures d == curDec(con)
+
+// ---- reads (C07). rem(con): decrypted bytes not yet handed to the caller. One call hands out, in order and without loss
+// or duplication, bytes of (old remainder ++ plaintext of the frames it decrypted): what was returned followed by the new
+// remainder equals the old remainder followed by the peer's payload chunks old(deccnt) .. deccnt-1 (pcat, ideal AEAD).
+// connInv: the connection is wrapped by at most one buffered reader, kept in con.buffered (bytes read ahead survive).
+//@ pred connInv(con) = con != nil && con.connection != nil && con.context != nil && ((con.buffered == nil) == !wrapped(con.connection)) && ref(con.connection) != ref(con) && (con.readBuffer != nil ==> typeis(con.readBuffer, "*bytes.Buffer") && ref(con.readBuffer) != ref(con))
+//@ func (con *Connection) DecryptedRead(b) (n, err)
+//@   requires inv: connInv(con)
+//@   requires dec: curDec(con) != nil && ref(curDec(con)) != ref(con) && deckey(curDec(con)) == dkey()
+//@   modifies heap, verified, deccnt, stream, wrapped(con.connection)
+//@   ensures inv: connInv(con)
+//@   ensures reader: 0 <= n && n <= len(b)
+//@   ensures order: err == nil ==> cat(sub(seq(b), 0, n), ite(con.readBuffer == nil, empty(), stream(con.readBuffer))) == cat(old(ite(con.readBuffer == nil, empty(), stream(con.readBuffer))), pcat(old(deccnt(curDec(con))), deccnt(curDec(con))))
+//@   ensures noeof: err == sentinel("io.EOF") ==> old(con.readBuffer) == nil
+//@   ensures leftover: old(con.readBuffer) != nil ==> err == nil && deccnt(curDec(con)) == old(deccnt(curDec(con)))
+// a failed read (in particular a read timeout, after which the caller reads again) has consumed no frame: otherwise the
+// plaintext of the frames it had already decrypted is lost. KNOWN FINDING (see /verif/known_findings.json): Decrypt
+// drops what it decrypted when a later frame of the same message cannot be read.
+//@   ensures lossless: err != nil ==> deccnt(curDec(con)) == old(deccnt(curDec(con)))
+
+// Read: on a verified connection exactly DecryptedRead (same guarantees); otherwise the plain socket read
+//@ func (con *Connection) Read(b) (n, err)
+//@   requires inv: connInv(con)
+//@   requires dec: ref(curDec(con)) != ref(con) && (curDec(con) != nil ==> deckey(curDec(con)) == dkey())
+//@   modifies heap, verified, deccnt, stream, wrapped(con.connection)
+//@   ensures reader: 0 <= n && n <= len(b)
+//@   ensures inv: curDec(con) != nil ==> connInv(con)
+//@   ensures order: curDec(con) != nil && err == nil ==> cat(sub(seq(b), 0, n), ite(con.readBuffer == nil, empty(), stream(con.readBuffer))) == cat(old(ite(con.readBuffer == nil, empty(), stream(con.readBuffer))), pcat(old(deccnt(curDec(con))), deccnt(curDec(con))))
+//@   ensures noeof: curDec(con) != nil && err == sentinel("io.EOF") ==> old(con.readBuffer) == nil
 
 //@ func (con *Connection) EncryptedWrite(b) (n, err)
 //@   requires con != nil && con.connection != nil && con.context != nil
